@@ -102,7 +102,8 @@ extern ssize_t mpt_history_values(MPT_STRUCT(history) *hist, size_t len, const v
 			if (!mpt_array_append(&hist->fmt._dat, sizeof(*curr), curr)) {
 				return MPT_ERROR(BadOperation);
 			}
-			/* update data type info */
+			/* update data type info, append may have created or moved the buffer */
+			buf = hist->fmt._dat._buf;
 			dat = (void *) (buf + 1);
 			++dlen;
 			src = ++curr;
